@@ -148,6 +148,8 @@ static char g_envA[256], g_envB[256];
 extern void env_probe(const char *tag, const char *setting);
 extern void mp_line(const char *line);
 extern void mp_run(void);
+extern void ft_line(const char *line);
+extern void ft_run(void);
 #include "ops.h"
 
 /* ------------------------------------------------------------------ */
@@ -416,6 +418,8 @@ static void parse_case(char *text)
                 parse_ops(&G.main_a, opstr);
         } else if (!strncmp(line, "mp ", 3)) {
             mp_line(line);
+        } else if (!strncmp(line, "ft ", 3)) {
+            ft_line(line);
         } else if (!strncmp(line, "expect", 6) || !strncmp(line, "note", 4)) {
             /* for the offline oracle / humans */
         } else {
